@@ -2,7 +2,7 @@ SPECIFICATION WFairSpec
 CONSTANTS
   Deviation = "none"
   Kinds = {"async", "mq", "syncq"}
-  Caps = {0, 1}
+  Caps = {0}
   MaxItems = 2
   Cons = {1, 2, 3}
 PROPERTIES CloseReleases ItemsDelivered
